@@ -253,11 +253,20 @@ static void checkDelivery() {
       fail27("invocation-still-running-after-return", s, -1);
 }
 
+static void pipeHangKey(char* buf, size_t n) {
+  PRun& r = *gp;
+  if (r.thrown)
+    snprintf(buf, n, "after-throw-at-%s", r.throwStage == 0 ? "generator" : (r.throwStage == r.nStages - 1 ? "sink" : "transform"));
+  else
+    snprintf(buf, n, "no-exception");
+}
+
 static void pipeProgram(int focus) {
   PRun r;
   memset(&r, 0, sizeof r);
   new (&r) PRun();
   gp = &r;
+  sim_set_hang_keyer(pipeHangKey);
   r.focus = focus;
   g_live = 0;
   int nThreads = range(0, 4);
